@@ -7,21 +7,23 @@ Open Scope Z_scope.
 Definition sx_items (o : option (list (list Z))) : sx :=
   match o with Some items => L [I 0; L (map sx_b items)] | None => sx_err OutOfFuel end.
 
-(* C10: (kind, k, stream, read sizes) *)
-Definition run_frame (i : Z * Z * list (Z * Z) * list Z) : sx :=
-  let '(kind, k, st, sizes) := i in
+(* C10: (trim threshold, kind, k, stream, read sizes).  The threshold is the literal 20_000_000 of the source; the harness also
+   runs the implementation's code object with that literal replaced by a small number, so that the trim branch is taken on
+   small streams, and passes the same number here. *)
+Definition run_frame (i : Z * Z * Z * list (Z * Z) * list Z) : sx :=
+  let '(T, kind, k, st, sizes) := i in
   let stream := bytes_of st in
-  sx_items (if kind =? 0 then frame kind (Z.to_nat k) stream []
-            else frame kind (Z.to_nat k) [] (cut (map Z.to_nat sizes) stream)).
+  sx_items (if kind =? 0 then frameT T kind (Z.to_nat k) stream []
+            else frameT T kind (Z.to_nat k) [] (cut (map Z.to_nat sizes) stream)).
 
 (* C02: (kind, k, [(prefix, packet)], read sizes); the stream is the encoding of the packets *)
 Definition c02_stream (pps : list (list (Z * Z) * list (Z * Z))) : list (list Z * list Z) :=
   map (fun pp => (bytes_of (fst pp), bytes_of (snd pp))) pps.
-Definition run_c02 (i : Z * Z * list (list (Z * Z) * list (Z * Z)) * list Z) : sx :=
-  let '(kind, k, pps, sizes) := i in
+Definition run_c02 (i : Z * Z * Z * list (list (Z * Z) * list (Z * Z)) * list Z) : sx :=
+  let '(T, kind, k, pps, sizes) := i in
   let stream := encode (c02_stream pps) in
-  sx_items (if kind =? 0 then frame kind (Z.to_nat k) stream []
-            else frame kind (Z.to_nat k) [] (cut (map Z.to_nat sizes) stream)).
-Definition spec_c02 (i : Z * Z * list (list (Z * Z) * list (Z * Z)) * list Z) : sx :=
-  let '(kind, k, pps, sizes) := i in
+  sx_items (if kind =? 0 then frameT T kind (Z.to_nat k) stream []
+            else frameT T kind (Z.to_nat k) [] (cut (map Z.to_nat sizes) stream)).
+Definition spec_c02 (i : Z * Z * Z * list (list (Z * Z) * list (Z * Z)) * list Z) : sx :=
+  let '(T, kind, k, pps, sizes) := i in
   L [I 0; L (map (fun pp => sx_b (snd pp)) (c02_stream pps))].
